@@ -158,7 +158,7 @@ Proof. intros d [q H]. simpl. rewrite H. reflexivity. Qed.
 
 Lemma conv_point_jpoint : forall p, finite (fst p) -> finite (snd p) -> conv_point (jpoint p) = CVal p.
 Proof.
-  intros [a b] [qa Ha] [qb Hb]. simpl in *. unfold jpoint. simpl. rewrite Ha. simpl. rewrite Hb. reflexivity.
+  intros [a b] [qa Ha] [qb Hb]. cbn [fst snd] in *. unfold jpoint, conv_point. cbn [fst snd]. rewrite Ha, Hb. reflexivity.
 Qed.
 
 Lemma uint_member_stable : forall k o n, lookup_last k o = Some (jint n) -> uint_stable n -> uint_member k o = Some n.
@@ -266,7 +266,7 @@ Proof.
     by (destruct (norm_vmws (tm_vmw m)); split; reflexivity).
   assert (NC : is_soft match tm_corner m with CornerUnset => CNil | c => CVal c end = false) by (destruct (tm_corner m); reflexivity).
   destruct NK as [NK1 NK2]. destruct NV as [NV1 NV2].
-  cbn [is_panic is_hard is_soft andb orb]. rewrite !NH, NK1, NK2, NV1, NV2, NC. cbn [andb orb].
+  cbn [is_hard is_soft andb orb]. rewrite !NH, NK1, NK2, NV1, NV2, NC. cbn [andb orb].
   rewrite E. rewrite tm_valid_norm, HV. reflexivity.
 Qed.
 
